@@ -5,7 +5,7 @@ set -u
 patch=$1; prop=$2; n=${3:-6}
 git -C /tmp/devrepo diff --quiet || { echo "/tmp/devrepo dirty"; exit 2; }
 git -C /tmp/devrepo apply "$patch" || exit 2
-( cd /verif/harness && CARGO_TARGET_DIR=/verif/target/dev cargo build --release --offline --config 'paths=["/tmp/devrepo"]' 2>&1 | grep -E "^error" -A8 | head -20 )
+( cd ${HARNESS_DIR:-/verif/harness} && CARGO_TARGET_DIR=/verif/target/dev cargo build --release --offline --config 'paths=["/tmp/devrepo"]' 2>&1 | grep -E "^error" -A8 | head -20 )
 rm -f /tmp/devm*.json
 for sh in $(seq 0 $((n-1))); do /verif/target/dev/release/dv5mon $prop --tier quick --seed ${VERIF_SEED:-1} --shard $sh --nshards 16 --out /tmp/devm$sh.json & done; wait
 git -C /tmp/devrepo checkout -- .
@@ -18,4 +18,4 @@ for sh in range(int(sys.argv[1])):
     for k,v in r['violation_counts'].items(): tot[k]=tot.get(k,0)+v
 print('violations:',tot)
 PY
-( cd /verif/harness && CARGO_TARGET_DIR=/verif/target/dev cargo build --release --offline --config 'paths=["/tmp/devrepo"]' 2>&1 | grep -E "^error" | head -3 )
+( cd ${HARNESS_DIR:-/verif/harness} && CARGO_TARGET_DIR=/verif/target/dev cargo build --release --offline --config 'paths=["/tmp/devrepo"]' 2>&1 | grep -E "^error" | head -3 )
